@@ -495,5 +495,6 @@ def replay(data):
             print('VIOLATION property=C17 replay=reproduced')
             return 1
         return 0
-    from ..replay import replay_grammar_case
-    return replay_grammar_case(data)
+    import sys
+    from ..replay import replay_by_rerun
+    return replay_by_rerun(sys.modules[__name__], data)
